@@ -329,18 +329,535 @@ Proof.
 Qed.
 
 (* the same order on both sides; after a match MATCHED_VAR agrees again *)
-Definition I (a b : bool) (p p' : st * list entry) : Prop :=
+Definition IR (a b : bool) (p p' : st * list entry) : Prop :=
   EP a b p p' /\ (snd p <> [] -> E false b (fst p) (fst p')).
 
 Lemma step_I a b lk p p' e :
-  Forall (act_ok false b) (l_acts lk) -> I a b p p' -> I a b (step_entry lk p e) (step_entry lk p' e).
+  Forall (act_ok false b) (l_acts lk) -> IR a b p p' -> IR a b (step_entry lk p e) (step_entry lk p' e).
 Proof.
   intros Ha [HEP Hm]. split; [apply step_EP; auto|].
   rewrite step_snd. unfold mlist. destruct (matches lk e) eqn:Hmt.
   - intros _. destruct (step_respects a b lk p p' e Ha (proj1 HEP)) as [_ H]. apply H, Hmt.
-  - rewrite app_nil_r. intros Hne. apply (step_respects false b); auto.
+  - rewrite app_nil_r. intros Hne. apply (proj1 (step_respects false b lk p p' e Ha (Hm Hne))).
 Qed.
 
 Lemma entries_same a b lk l : Forall (act_ok false b) (l_acts lk) ->
-  forall p p', I a b p p' -> I a b (fold_left (step_entry lk) l p) (fold_left (step_entry lk) l p').
+  forall p p', IR a b p p' -> IR a b (fold_left (step_entry lk) l p) (fold_left (step_entry lk) l p').
 Proof. intros Ha. induction l as [|e l IH]; intros p p' H; cbn; [exact H | apply IH, step_I; auto]. Qed.
+
+(* ------------------------------------------------------------------------------------- *)
+(* selection                                                                             *)
+(* ------------------------------------------------------------------------------------- *)
+
+Definition target_ok (a b : bool) (t : target) : Prop :=
+  (reads_mv_target t = true -> a = false) /\ (reads_cap_target t = true -> b = false).
+
+Lemma coll_all_E a b v rq post s s' :
+  E a b s s' ->
+  ((v = VMatchedVar \/ v = VMatchedVarName) -> a = false) ->
+  (v = VTx -> b = false) ->
+  coll_all v rq post s = coll_all v rq post s'.
+Proof.
+  intros (H1 & H2 & H3 & H4 & H5 & H6) Hm Hc.
+  destruct v; cbn; try reflexivity.
+  - rewrite H1, H6; auto.
+  - destruct (H5 (Hm (or_introl eq_refl))) as [-> _]. reflexivity.
+  - destruct (H5 (Hm (or_intror eq_refl))) as [_ ->]. reflexivity.
+Qed.
+
+Lemma select_E a b t rq post s s' :
+  target_ok a b t -> E a b s s' -> select t rq post s = select t rq post s'.
+Proof.
+  intros [Hm Hc] HE. unfold select.
+  assert (Hf : find t rq post s = find t rq post s'); [|rewrite Hf; reflexivity].
+  unfold find. unfold reads_mv_target in Hm. unfold reads_cap_target in Hc.
+  destruct (t_key t) as [k|].
+  - destruct (is_single_var (t_var t)) eqn:Hsv; [reflexivity|].
+    destruct (t_var t) eqn:Hv; try reflexivity; try discriminate.
+    rewrite (st_get_E a b s s' (lower_ascii k) HE); auto.
+  - apply (coll_all_E a b); auto.
+    + intros [Hv|Hv]; rewrite Hv in Hm; auto.
+    + intros Hv; rewrite Hv in Hc; auto.
+Qed.
+
+Lemma filter_len {A} (f : A -> bool) l : (List.length (filter f l) <= List.length l)%nat.
+Proof. induction l; cbn; [lia | destruct (f a); cbn; lia]. Qed.
+
+Lemma select_short t rq post s : multi_target t = false -> (List.length (select t rq post s) <= 1)%nat.
+Proof.
+  unfold multi_target, select. destruct (t_count t); [cbn; lia|]. intros H.
+  eapply Nat.le_trans; [apply filter_len|].
+  unfold find. destruct (is_single_var (t_var t)) eqn:Hs.
+  - destruct (t_key t); [cbn; lia|]. destruct (t_var t); try discriminate; cbn; lia.
+  - destruct (t_var t); try discriminate; destruct (t_key t); try discriminate.
+    destruct (st_get _ _); cbn; lia.
+Qed.
+
+Lemma perm_short {A} (l l' : list A) : (List.length l <= 1)%nat -> Permutation l' l -> l' = l.
+Proof.
+  destruct l as [|x [|y r]]; cbn; intros Hl HP.
+  - apply Permutation_nil, Permutation_sym, HP.
+  - apply Permutation_length_1_inv, Permutation_sym, HP.
+  - lia.
+Qed.
+
+(* ------------------------------------------------------------------------------------- *)
+(* targets and links                                                                     *)
+(* ------------------------------------------------------------------------------------- *)
+
+Section Link.
+  Variables (ord1 ord2 : ord_t) (rq : request) (post : bool).
+  Hypothesis Ho1 : perm_oracle ord1.
+  Hypothesis Ho2 : perm_oracle ord2.
+
+  Lemma target_multi b lk t p p' :
+    Forall (act_ok true b) (l_acts lk) -> (captures lk = true -> b = true) ->
+    target_ok true b t -> EP true b p p' ->
+    EP true b (eval_target ord1 lk rq post p t) (eval_target ord2 lk rq post p' t).
+  Proof.
+    intros Ha Hc Ht [HE HP]. unfold eval_target.
+    rewrite (select_E true b t rq post (fst p) (fst p') Ht HE).
+    apply entries_perm; auto.
+    - eapply Permutation_trans; [apply Ho1 | apply Permutation_sym, Ho2].
+    - split; cbn; [apply E_tick, HE | exact HP].
+  Qed.
+
+  Lemma targets_multi b lk ts :
+    Forall (act_ok true b) (l_acts lk) -> (captures lk = true -> b = true) ->
+    Forall (target_ok true b) ts ->
+    forall p p', EP true b p p' ->
+    EP true b (fold_left (eval_target ord1 lk rq post) ts p) (fold_left (eval_target ord2 lk rq post) ts p').
+  Proof.
+    intros Ha Hc. induction 1 as [|t ts Ht Hts IH]; intros p p' H; cbn; [exact H|].
+    apply IH, target_multi; auto.
+  Qed.
+
+  Lemma target_single a b lk t p p' :
+    Forall (act_ok false b) (l_acts lk) -> multi_target t = false ->
+    target_ok a b t -> IR a b p p' ->
+    IR a b (eval_target ord1 lk rq post p t) (eval_target ord2 lk rq post p' t).
+  Proof.
+    intros Ha Hs Ht [[HE HP] Hm]. unfold eval_target.
+    rewrite (select_E a b t rq post (fst p) (fst p') Ht HE).
+    pose proof (select_short t rq post (fst p') Hs) as Hl.
+    rewrite (perm_short _ _ Hl (Ho1 (s_step (fst p)) _)), (perm_short _ _ Hl (Ho2 (s_step (fst p')) _)).
+    apply entries_same; auto. split; [split|]; cbn; auto using E_tick.
+  Qed.
+
+  Lemma targets_single a b lk ts :
+    Forall (act_ok false b) (l_acts lk) ->
+    Forall (fun t => multi_target t = false /\ target_ok a b t) ts ->
+    forall p p', IR a b p p' ->
+    IR a b (fold_left (eval_target ord1 lk rq post) ts p) (fold_left (eval_target ord2 lk rq post) ts p').
+  Proof.
+    intros Ha. induction 1 as [|t ts [Hs Ht] Hts IH]; intros p p' H; cbn; [exact H|].
+    apply IH, target_single; auto.
+  Qed.
+End Link.
+
+Lemma link_ok_targets tm tc lk : link_ok tm tc lk = true ->
+  Forall (target_ok (tm_after tm lk) (tc_after tc lk)) (l_targets lk).
+Proof.
+  unfold link_ok. intros H. apply andb_true_iff in H as [H _].
+  rewrite forallb_forall in H. apply Forall_forall. intros t Ht.
+  specialize (H t Ht). apply andb_true_iff in H as [H1 H2]. split; intros Hr; rewrite Hr in *; cbn in *.
+  - destruct (tm_after tm lk); [discriminate | reflexivity].
+  - destruct (tc_after tc lk); [discriminate | reflexivity].
+Qed.
+
+Lemma link_ok_acts tm tc lk : link_ok tm tc lk = true ->
+  Forall (fun a => act_writes_cap a = false /\ (act_reads_mv a = true -> multi_link lk = false)
+                   /\ (act_reads_cap a = true -> tc_after tc lk = false)) (l_acts lk).
+Proof.
+  unfold link_ok. intros H. apply andb_true_iff in H as [_ H].
+  rewrite forallb_forall in H. apply Forall_forall. intros a Ha.
+  specialize (H a Ha). apply andb_true_iff in H as [H H3]. apply andb_true_iff in H as [H1 H2].
+  split; [destruct (act_writes_cap a); [discriminate|reflexivity]|]. split; intros Hr; rewrite Hr in *; cbn in *.
+  - destruct (multi_link lk); [discriminate | reflexivity].
+  - destruct (tc_after tc lk); [discriminate | reflexivity].
+Qed.
+
+Section Link2.
+  Variables (ord1 ord2 : ord_t) (rq : request) (post : bool).
+  Hypothesis Ho1 : perm_oracle ord1.
+  Hypothesis Ho2 : perm_oracle ord2.
+
+  Lemma link_E tm tc lk s s' :
+    link_ok tm tc lk = true -> E tm tc s s' ->
+    EP (tm_after tm lk) (tc_after tc lk) (eval_link ord1 lk rq post s) (eval_link ord2 lk rq post s')
+    /\ (multi_link lk = false -> snd (eval_link ord1 lk rq post s) <> [] ->
+        E false (tc_after tc lk) (fst (eval_link ord1 lk rq post s)) (fst (eval_link ord2 lk rq post s'))).
+  Proof.
+    intros Hok HE.
+    pose proof (link_ok_targets tm tc lk Hok) as Hts.
+    pose proof (link_ok_acts tm tc lk Hok) as Has.
+    unfold eval_link.
+    destruct (multi_link lk) eqn:Hml.
+    - assert (Htm : tm_after tm lk = true) by (unfold tm_after; rewrite Hml; apply orb_true_r).
+      rewrite Htm in *. split; [|discriminate].
+      apply (targets_multi ord1 ord2 rq post Ho1 Ho2 (tc_after tc lk) lk).
+      + eapply Forall_impl; [|exact Has]. intros a (H1 & H2 & H3). split; [auto|split; auto].
+      + intros Hc. unfold tc_after. rewrite Hml, Hc. apply orb_true_r.
+      + exact Hts.
+      + split; cbn; [|apply Permutation_refl]. eapply E_weaken; [| |exact HE]; unfold ble; auto.
+        unfold tc_after. intros ->. reflexivity.
+    - assert (Htm : tm_after tm lk = tm) by (unfold tm_after; rewrite Hml; apply orb_false_r).
+      assert (Htc : tc_after tc lk = tc) by (unfold tc_after; rewrite Hml; cbn; apply orb_false_r).
+      rewrite Htm, Htc in *.
+      assert (HI : IR tm tc (fold_left (eval_target ord1 lk rq post) (l_targets lk) (s, []))
+                           (fold_left (eval_target ord2 lk rq post) (l_targets lk) (s', []))).
+      { apply (targets_single ord1 ord2 rq post Ho1 Ho2 tm tc lk).
+        - eapply Forall_impl; [|exact Has]. intros a (H1 & H2 & H3). split; [auto|split; auto].
+        - apply Forall_forall. intros t Ht. split; [|rewrite Forall_forall in Hts; auto].
+          unfold multi_link in Hml. destruct (multi_target t) eqn:Hmt; [|reflexivity].
+          assert (existsb multi_target (l_targets lk) = true) by (apply existsb_exists; eauto). congruence.
+        - split; [split; cbn; auto using Permutation_refl|]. cbn. intros H; contradiction H; reflexivity. }
+      destruct HI as [HEP Hm]. split; [exact HEP | intros _; exact Hm].
+  Qed.
+End Link2.
+
+(* ------------------------------------------------------------------------------------- *)
+(* chains, rules, phases, transaction                                                    *)
+(* ------------------------------------------------------------------------------------- *)
+
+Definition mc (lk : link) : bool := multi_link lk && captures lk.
+
+Definition optperm (a b : option (list entry)) : Prop :=
+  match a, b with
+  | Some x, Some y => Permutation x y
+  | None, None => True
+  | _, _ => False
+  end.
+
+Lemma ble_refl x : ble x x. Proof. unfold ble; auto. Qed.
+Lemma ble_orb_l x y : ble x (x || y). Proof. unfold ble; intros ->; reflexivity. Qed.
+Lemma ble_orb_r x y : ble y (x || y). Proof. unfold ble; intros ->; apply orb_true_r. Qed.
+Lemma ble_true x : ble x true. Proof. unfold ble; auto. Qed.
+Lemma ble_false_l x : ble false x. Proof. unfold ble; discriminate. Qed.
+Lemma ble_trans x y z : ble x y -> ble y z -> ble x z. Proof. unfold ble; auto. Qed.
+Lemma ble_orb x y x' y' : ble x x' -> ble y y' -> ble (x || y) (x' || y').
+Proof. unfold ble. destruct x, y, x', y'; cbn; auto. Qed.
+
+Lemma fire_E a b r s s' m m' : E a b s s' -> Permutation m m' -> E a b (fire r s m) (fire r s' m').
+Proof.
+  intros (H1 & H2 & H3 & H4 & H5 & H6) HP. unfold fire. E_split; cbn; auto.
+  - rewrite H2. reflexivity.
+  - rewrite H3. reflexivity.
+  - apply Forall2_app; [exact H4|]. constructor; [split; auto | constructor].
+Qed.
+
+Section Rules.
+  Variables (ord1 ord2 : ord_t) (rq : request) (post : bool).
+  Hypothesis Ho1 : perm_oracle ord1.
+  Hypothesis Ho2 : perm_oracle ord2.
+
+  (* after a link that matched: the flags the next chain link starts from *)
+  Lemma link_next tm tc lk s s' :
+    link_ok tm tc lk = true -> E tm tc s s' ->
+    snd (eval_link ord1 lk rq post s) <> [] ->
+    E (multi_link lk) (tc_after tc lk) (fst (eval_link ord1 lk rq post s)) (fst (eval_link ord2 lk rq post s')).
+  Proof.
+    intros Hok HE Hne. destruct (link_E ord1 ord2 rq post Ho1 Ho2 tm tc lk s s' Hok HE) as [[HE' _] Hm].
+    destruct (multi_link lk) eqn:Hml.
+    - eapply E_weaken; [apply ble_true | apply ble_refl | exact HE'].
+    - apply Hm; auto.
+  Qed.
+
+  Lemma nil_perm (l l' : list entry) : Permutation l l' -> (l = [] <-> l' = []).
+  Proof.
+    intros HP. split; intros ->.
+    - apply Permutation_nil; auto.
+    - apply Permutation_nil, Permutation_sym; auto.
+  Qed.
+
+  Lemma chain_E ls : forall tmc tc p p',
+    chain_ok tmc tc ls = true -> EP tmc tc p p' ->
+    E (tmc || existsb multi_link ls) (tc || existsb mc ls)
+      (fst (eval_chain ord1 rq post ls p)) (fst (eval_chain ord2 rq post ls p'))
+    /\ optperm (snd (eval_chain ord1 rq post ls p)) (snd (eval_chain ord2 rq post ls p')).
+  Proof.
+    induction ls as [|lk r IH]; intros tmc tc p p' Hok [HE HP].
+    - cbn. rewrite !orb_false_r. split; auto.
+    - cbn [chain_ok] in Hok. apply andb_true_iff in Hok as [Hlk Hr].
+      destruct (link_E ord1 ord2 rq post Ho1 Ho2 tmc tc lk (fst p) (fst p') Hlk HE) as [[HEq HPq] _].
+      pose proof (link_next tmc tc lk (fst p) (fst p') Hlk HE) as Hnext.
+      pose proof (nil_perm _ _ HPq) as Hnil.
+      cbn [eval_chain existsb].
+      destruct (snd (eval_link ord1 lk rq post (fst p))) as [|e1 m1] eqn:Hq1;
+        destruct (snd (eval_link ord2 lk rq post (fst p'))) as [|e2 m2] eqn:Hq2.
+      + cbn. split; [|exact Logic.I].
+        eapply E_weaken; [| |exact HEq]; unfold tm_after, tc_after, mc.
+        * apply ble_orb; [apply ble_refl | apply ble_orb_l].
+        * apply ble_orb; [apply ble_refl | apply ble_orb_l].
+      + destruct Hnil as [Hn _]. discriminate (Hn eq_refl).
+      + destruct Hnil as [_ Hn]. discriminate (Hn eq_refl).
+      + assert (Hne : e1 :: m1 <> []) by discriminate.
+        destruct (IH (multi_link lk) (tc_after tc lk) (fst (eval_link ord1 lk rq post (fst p)), snd p ++ e1 :: m1)
+                     (fst (eval_link ord2 lk rq post (fst p')), snd p' ++ e2 :: m2) Hr) as [HE2 HP2].
+        { split; cbn; [apply Hnext, Hne | apply Permutation_app; auto]. }
+        split; [|exact HP2].
+        eapply E_weaken; [| |exact HE2]; unfold tc_after, mc.
+        * apply ble_orb_r.
+        * rewrite <- orb_assoc. apply ble_refl.
+  Qed.
+
+  Lemma rule_E tm tc r s s' :
+    rule_ok tm tc r = true -> E tm tc s s' ->
+    E (rule_tm tm r) (rule_tc tc r) (eval_rule ord1 rq post r s) (eval_rule ord2 rq post r s').
+  Proof.
+    intros Hok HE. unfold rule_ok in Hok. apply andb_true_iff in Hok as [Hh Hc].
+    destruct (link_E ord1 ord2 rq post Ho1 Ho2 tm tc (r_head r) s s' Hh HE) as [[HEq HPq] _].
+    pose proof (link_next tm tc (r_head r) s s' Hh HE) as Hnext.
+    pose proof (nil_perm _ _ HPq) as Hnil.
+    unfold eval_rule, rule_tm, rule_tc, rule_links. cbn [existsb]. fold (mc (r_head r)).
+    destruct (snd (eval_link ord1 (r_head r) rq post s)) as [|e1 m1] eqn:Hq1;
+      destruct (snd (eval_link ord2 (r_head r) rq post s')) as [|e2 m2] eqn:Hq2.
+    - eapply E_weaken; [| |exact HEq]; unfold tm_after, tc_after.
+      + apply ble_orb; [apply ble_refl | apply ble_orb_l].
+      + apply ble_orb; [apply ble_refl | apply ble_orb_l].
+    - destruct Hnil as [Hn _]. discriminate (Hn eq_refl).
+    - destruct Hnil as [_ Hn]. discriminate (Hn eq_refl).
+    - assert (Hne : e1 :: m1 <> []) by discriminate.
+      destruct (chain_E (r_chain r) (multi_link (r_head r)) (tc_after tc (r_head r))
+                        (eval_link ord1 (r_head r) rq post s) (eval_link ord2 (r_head r) rq post s') Hc) as [HE2 HP2].
+      { split; [apply Hnext, Hne | rewrite Hq1, Hq2; exact HPq]. }
+      assert (Hw : forall x y, E (multi_link (r_head r) || existsb multi_link (r_chain r))
+                                 (tc_after tc (r_head r) || existsb mc (r_chain r)) x y ->
+                               E (tm || (multi_link (r_head r) || existsb multi_link (r_chain r)))
+                                 (tc || (mc (r_head r) || existsb mc (r_chain r))) x y).
+      { intros x y H. eapply E_weaken; [| |exact H]; unfold tc_after.
+        - apply ble_orb_r.
+        - fold (mc (r_head r)). rewrite <- orb_assoc. apply ble_refl. }
+      destruct (eval_chain ord1 rq post (r_chain r) (eval_link ord1 (r_head r) rq post s)) as [c1 [k1|]];
+        destruct (eval_chain ord2 rq post (r_chain r) (eval_link ord2 (r_head r) rq post s')) as [c2 [k2|]];
+        cbn in HE2, HP2; try contradiction.
+      + apply fire_E; auto.
+      + apply Hw, HE2.
+  Qed.
+End Rules.
+
+Lemma rule_tm_ble tm r : ble tm (rule_tm tm r). Proof. apply ble_orb_l. Qed.
+Lemma rule_tc_ble tc r : ble tc (rule_tc tc r). Proof. apply ble_orb_l. Qed.
+
+Lemma rules_ok_mono ph rs : forall tm tc b tm' tc',
+  rules_ok ph tm tc rs = (b, (tm', tc')) -> ble tm tm' /\ ble tc tc'.
+Proof.
+  induction rs as [|r rest IH]; intros tm tc b tm' tc' H; cbn in H.
+  - inversion H; subst. split; apply ble_refl.
+  - destruct (r_phase r =? ph).
+    + destruct (rules_ok ph (rule_tm tm r) (rule_tc tc r) rest) as [b0 [x y]] eqn:Hr.
+      inversion H; subst. destruct (IH _ _ _ _ _ Hr) as [H1 H2].
+      split; [apply (ble_trans _ _ _ (rule_tm_ble tm r) H1) | apply (ble_trans _ _ _ (rule_tc_ble tc r) H2)].
+    + eauto.
+Qed.
+
+Section Phases.
+  Variables (ord1 ord2 : ord_t) (rq : request).
+  Hypothesis Ho1 : perm_oracle ord1.
+  Hypothesis Ho2 : perm_oracle ord2.
+
+  Lemma interrupted_E a b s s' : E a b s s' -> interrupted s = interrupted s'.
+  Proof. intros (_ & H & _). unfold interrupted. rewrite H. reflexivity. Qed.
+
+  Lemma rules_E post ph rs : forall tm tc s s' tm' tc',
+    rules_ok ph tm tc rs = (true, (tm', tc')) -> E tm tc s s' ->
+    E tm' tc' (eval_rules ord1 rq post ph rs s) (eval_rules ord2 rq post ph rs s').
+  Proof.
+    induction rs as [|r rest IH]; intros tm tc s s' tm' tc' H HE; cbn in H |- *.
+    - inversion H; subst. exact HE.
+    - destruct (r_phase r =? ph).
+      + destruct (rules_ok ph (rule_tm tm r) (rule_tc tc r) rest) as [b0 [x y]] eqn:Hr.
+        inversion H as [[Hb Hx Hy]]. subst x y. apply andb_true_iff in Hb as [Hrule Hb0]. subst b0.
+        rewrite <- (interrupted_E _ _ _ _ HE).
+        destruct (interrupted s && negb (ph =? 5)).
+        * destruct (rules_ok_mono _ _ _ _ _ _ _ Hr) as [H1 H2].
+          eapply E_weaken; [| |exact HE]; [apply (ble_trans _ _ _ (rule_tm_ble tm r) H1) | apply (ble_trans _ _ _ (rule_tc_ble tc r) H2)].
+        * eapply IH; [exact Hr|]. apply rule_E; auto.
+      + eapply IH; eauto.
+  Qed.
+
+  Theorem order_independent cfg :
+    order_insensitive cfg = true ->
+    obs_equiv (observe (run cfg rq ord1)) (observe (run cfg rq ord2)).
+  Proof.
+    unfold order_insensitive. intros H.
+    destruct (rules_ok 1 false false cfg) as [b1 [tm1 tc1]] eqn:H1.
+    destruct (rules_ok 2 tm1 tc1 cfg) as [b2 [tm2 tc2]] eqn:H2.
+    destruct (rules_ok 5 tm2 tc2 cfg) as [b5 [tm5 tc5]] eqn:H5.
+    destruct (rules_ok 5 tm1 tc1 cfg) as [b5' [tm5' tc5']] eqn:H5'.
+    apply andb_true_iff in H as [H Hb5']. apply andb_true_iff in H as [H Hb5]. apply andb_true_iff in H as [Hb1 Hb2].
+    subst.
+    assert (HE1 : E tm1 tc1 (eval_rules ord1 rq false 1 cfg st_init) (eval_rules ord2 rq false 1 cfg st_init)).
+    { eapply rules_E; [exact H1 | apply E_refl]. }
+    assert (HF : exists a b, E a b (run cfg rq ord1) (run cfg rq ord2)).
+    { unfold run. rewrite <- (interrupted_E _ _ _ _ HE1).
+      destruct (interrupted (eval_rules ord1 rq false 1 cfg st_init)).
+      - exists tm5', tc5'. eapply rules_E; [exact H5' | exact HE1].
+      - exists tm5, tc5. eapply rules_E; [exact H5|]. eapply rules_E; [exact H2 | exact HE1]. }
+    destruct HF as (a & b & (G1 & G2 & G3 & G4 & _)).
+    unfold obs_equiv, observe; cbn. auto.
+  Qed.
+End Phases.
+
+(* ------------------------------------------------------------------------------------- *)
+(* the outcome is a function of (configuration, request, oracle)                         *)
+(* ------------------------------------------------------------------------------------- *)
+
+Section Ext.
+  Variables (ord ord' : ord_t).
+  Hypothesis Hext : forall n l, ord n l = ord' n l.
+
+  Lemma fold_left_ext {A B} (f g : A -> B -> A) : (forall a b, f a b = g a b) ->
+    forall l a, fold_left f l a = fold_left g l a.
+  Proof. intros H. induction l as [|x l IH]; intros a; cbn; [reflexivity | rewrite H; apply IH]. Qed.
+
+  Lemma eval_target_ext lk rq post p t : eval_target ord lk rq post p t = eval_target ord' lk rq post p t.
+  Proof. unfold eval_target. rewrite Hext. reflexivity. Qed.
+
+  Lemma eval_link_ext lk rq post s : eval_link ord lk rq post s = eval_link ord' lk rq post s.
+  Proof. unfold eval_link. apply fold_left_ext. intros; apply eval_target_ext. Qed.
+
+  Lemma eval_chain_ext rq post ls : forall p, eval_chain ord rq post ls p = eval_chain ord' rq post ls p.
+  Proof.
+    induction ls as [|lk r IH]; intros p; cbn; [reflexivity|].
+    rewrite eval_link_ext. destruct (snd _); [reflexivity | apply IH].
+  Qed.
+
+  Lemma eval_rule_ext rq post r s : eval_rule ord rq post r s = eval_rule ord' rq post r s.
+  Proof. unfold eval_rule. rewrite eval_link_ext. destruct (snd _); [reflexivity|]. rewrite eval_chain_ext. reflexivity. Qed.
+
+  Lemma eval_rules_ext rq post ph rs : forall s, eval_rules ord rq post ph rs s = eval_rules ord' rq post ph rs s.
+  Proof.
+    induction rs as [|r rest IH]; intros s; cbn; [reflexivity|].
+    destruct (r_phase r =? ph); [|apply IH]. destruct (_ && _); [reflexivity|]. rewrite eval_rule_ext. apply IH.
+  Qed.
+
+  Lemma run_ext cfg rq : run cfg rq ord = run cfg rq ord'.
+  Proof. unfold run. rewrite !eval_rules_ext. reflexivity. Qed.
+End Ext.
+
+Theorem deterministic_given_order : forall cfg cfg' rq rq' (ord ord' : ord_t),
+  cfg = cfg' -> rq = rq' -> (forall n l, ord n l = ord' n l) ->
+  run cfg rq ord = run cfg' rq' ord'.
+Proof. intros cfg cfg' rq rq' ord ord' -> -> H. apply run_ext, H. Qed.
+
+(* the oracles used by the correspondence run are permutation oracles *)
+Lemma ord_id_perm : perm_oracle ord_id.
+Proof. intros n l. apply Permutation_refl. Qed.
+
+Lemma ord_rev_perm : perm_oracle ord_rev.
+Proof. intros n l. apply Permutation_sym, Permutation_rev. Qed.
+
+Lemma ord_mask_perm m : perm_oracle (ord_mask m).
+Proof. intros n l. unfold ord_mask. destruct (N.testbit _ _); [apply Permutation_sym, Permutation_rev | apply Permutation_refl]. Qed.
+
+(* ------------------------------------------------------------------------------------- *)
+(* the full statement is false: witnesses (known finding F26)                            *)
+(* ------------------------------------------------------------------------------------- *)
+
+Definition tgt (v : var) : target := mkT v None [] false.
+Definition req_ab : request := mkReq [(str "a"%string, str "x"%string); (str "b"%string, str "y"%string)] [] [] (str "GET"%string) (str "a=x&b=y"%string).
+
+(* SecRule ARGS "@rx ." "id:1,phase:1,pass,chain"   SecRule MATCHED_VAR "@streq x" *)
+Definition cfg_f26_chain : list rule :=
+  [mkR 1 1 (mkL [tgt VArgs] [] ORxDot false false [])
+       [mkL [tgt VMatchedVar] [] (OStreq (str "x"%string)) false false []] None None].
+
+(* SecRule ARGS "@rx ." "id:1,phase:1,pass,setvar:tx.last=%{MATCHED_VAR}" *)
+Definition cfg_f26_setvar : list rule :=
+  [mkR 1 1 (mkL [tgt VArgs] [] ORxDot false false [ASetvar (str "last"%string) [MMatchedVar]]) [] None None].
+
+(* SecRule ARGS "@rx ." "id:1,phase:1,pass,capture"   SecRule TX:0 "@streq x" "id:2,phase:2,deny,status:403" *)
+Definition cfg_f26_capture : list rule :=
+  [mkR 1 1 (mkL [tgt VArgs] [] ORxDot false true []) [] None None;
+   mkR 2 2 (mkL [mkT VTx (Some (str "0"%string)) [] false] [] (OStreq (str "x"%string)) false false []) [] (Some 403) None].
+
+Lemma obs_equiv_fired_length a b : obs_equiv a b -> List.length (o_fired a) = List.length (o_fired b).
+Proof. intros (_ & H & _). induction H; cbn; congruence. Qed.
+
+Theorem order_dependent_refuted :
+  exists cfg rq ord1 ord2, perm_oracle ord1 /\ perm_oracle ord2 /\
+    ~ obs_equiv (observe (run cfg rq ord1)) (observe (run cfg rq ord2)).
+Proof.
+  exists cfg_f26_chain, req_ab, ord_id, ord_rev.
+  split; [apply ord_id_perm|]. split; [apply ord_rev_perm|].
+  intros H. apply obs_equiv_fired_length in H. vm_compute in H. discriminate H.
+Qed.
+
+(* the same with the counters: a value copied from MATCHED_VAR *)
+Theorem order_dependent_counter_refuted :
+  exists cfg rq ord1 ord2, perm_oracle ord1 /\ perm_oracle ord2 /\
+    o_tx (observe (run cfg rq ord1)) <> o_tx (observe (run cfg rq ord2)).
+Proof.
+  exists cfg_f26_setvar, req_ab, ord_id, ord_rev.
+  split; [apply ord_id_perm|]. split; [apply ord_rev_perm|].
+  vm_compute. discriminate.
+Qed.
+
+(* and with the interruption: a later rule reading the capture of a multi-valued rule *)
+Theorem order_dependent_interruption_refuted :
+  exists cfg rq ord1 ord2, perm_oracle ord1 /\ perm_oracle ord2 /\
+    o_intr (observe (run cfg rq ord1)) <> o_intr (observe (run cfg rq ord2)).
+Proof.
+  exists cfg_f26_capture, req_ab, ord_rev, ord_id.
+  split; [apply ord_rev_perm|]. split; [apply ord_id_perm|].
+  vm_compute. discriminate.
+Qed.
+
+(* the guard rejects the three witnesses *)
+Example guard_rejects_witnesses :
+  order_insensitive cfg_f26_chain = false /\ order_insensitive cfg_f26_setvar = false
+  /\ order_insensitive cfg_f26_capture = false.
+Proof. vm_compute. auto. Qed.
+
+(* ------------------------------------------------------------------------------------- *)
+(* non-vacuity: an anomaly-scoring configuration satisfies the guard                     *)
+(* ------------------------------------------------------------------------------------- *)
+
+(* SecRule REQUEST_METHOD "@unconditionalMatch" "id:900,phase:1,pass,setvar:tx.crit=5,setvar:tx.score=0"
+   SecRule ARGS "@rx attack" "id:910,phase:2,pass,t:lowercase,capture,severity:2,
+                              setvar:tx.score=+%{tx.crit},setvar:tx.hits=+1"
+   SecRule ARGS_NAMES|REQUEST_HEADERS "@contains select" "id:920,phase:2,pass,t:lowercase,t:trim,
+                              setvar:tx.score=+%{tx.crit},chain"
+     SecRule REQUEST_METHOD "@streq POST" "setvar:tx.hits=+1,chain"
+     SecRule MATCHED_VAR "@beginsWith PO" "setvar:tx.method=%{MATCHED_VAR}"
+   SecRule &ARGS:a "@ge 3" "id:930,phase:2,pass,setvar:tx.score=+2"
+   SecRule TX:score "@ge 10" "id:949,phase:2,deny,status:403,severity:2"
+   SecRule TX:hits "@ge 1" "id:980,phase:5,pass,setvar:tx.logged=1" *)
+Definition cfg_anomaly : list rule :=
+  [mkR 900 1 (mkL [tgt VReqMethod] [] OAny false false
+               [ASetvar (str "crit"%string) [MLit (str "5"%string)]; ASetvar (str "score"%string) [MLit (str "0"%string)]]) [] None None;
+   mkR 910 2 (mkL [tgt VArgs] [TLowercase] (ORxLit (str "attack"%string)) false true
+               [ASetvar (str "score"%string) [MLit (str "+"%string); MTx (str "crit"%string)];
+                ASetvar (str "hits"%string) [MLit (str "+1"%string)]]) [] None (Some 2);
+   mkR 920 2 (mkL [tgt VArgsNames; tgt VReqHeaders] [TLowercase; TTrim] (OContains (str "select"%string)) false false
+               [ASetvar (str "score"%string) [MLit (str "+"%string); MTx (str "crit"%string)]])
+             [mkL [tgt VReqMethod] [] (OStreq (str "POST"%string)) false false [ASetvar (str "hits"%string) [MLit (str "+1"%string)]];
+              mkL [tgt VMatchedVar] [] (OBeginsWith (str "PO"%string)) false false [ASetvar (str "method"%string) [MMatchedVar]]]
+             None None;
+   mkR 930 2 (mkL [mkT VArgs (Some (str "a"%string)) [] true] [] (OGe 3) false false
+               [ASetvar (str "score"%string) [MLit (str "+2"%string)]]) [] None None;
+   mkR 949 2 (mkL [mkT VTx (Some (str "score"%string)) [] false] [] (OGe 10) false false []) [] (Some 403) (Some 2);
+   mkR 980 5 (mkL [mkT VTx (Some (str "hits"%string)) [] false] [] (OGe 1) false false
+               [ASetvar (str "logged"%string) [MLit (str "1"%string)]]) [] None None].
+
+Example anomaly_scoring_is_order_insensitive : order_insensitive cfg_anomaly = true.
+Proof. vm_compute. reflexivity. Qed.
+
+(* and it is not trivial: on this request rules 910, 920 (whole chain), 930 fire with several matched
+   entries each, the threshold rule interrupts, the logging rule runs *)
+Definition req_anomaly : request :=
+  mkReq [(str "a"%string, str "ATTACK one"%string); (str "a"%string, str "x"%string); (str "Select"%string, str "1"%string)]
+        [(str "A"%string, str "an Attack"%string); (str "b"%string, str "attack"%string)]
+        [(str "X-Q"%string, str " SELECT 1 "%string); (str "Content-Type"%string, str "application/x-www-form-urlencoded"%string)]
+        (str "POST"%string) (str "a=ATTACK+one&a=x&Select=1"%string).
+
+Example anomaly_run :
+  let o := observe (run cfg_anomaly req_anomaly ord_rev) in
+  o_intr o = Some (949%nat, 403)
+  /\ map (fun f => (fst f, List.length (snd f))) (o_fired o) = [(900, 1); (910, 3); (920, 4); (930, 1); (949, 1); (980, 1)]%nat
+  /\ map (fun kv => (fst kv, render (snd kv))) (o_tx o)
+     = [(str "10"%string, []); (str "crit"%string, str "5"%string); (str "score"%string, str "27"%string);
+        (str "hits"%string, str "4"%string); (str "method"%string, str "POST"%string); (str "logged"%string, str "1"%string)]
+  /\ o_hs o = 2.
+Proof. vm_compute. auto. Qed.
